@@ -13,7 +13,7 @@ from ..model import call_many
 from ..normtools import enc_def, enc_typ
 from ..pool import guarded, run_cases
 
-THEOREMS = ["C04_function_signature", "C04_argparse_defaults_partial", "C04_argparse_refuted_required", "C04_signature_example"]
+THEOREMS = ["C04_function_signature", "C04_argparse_defaults_partial", "C04_argparse_refuted_required", "C04_signature_example", "C04_class_body_carries", "C04_class_body_example"]
 STYLES = ("rest", "google", "numpydoc")
 PRELUDE = "from typing import *\nimport typing\n"
 
@@ -345,6 +345,12 @@ def collect(ctx, n_ir, _unused=0):
 def run(ctx):
     status = coqbuild.prove("C04", THEOREMS)
     agg, items, corr, irs = collect(ctx, 50 if ctx.quick else 2100)
+    # Model/ClassFmt.v (C04_class_body_carries) against the class / pydantic emitters: docstring, annotated assignments, parse back
+    from . import c02 as _c02
+    n_cls, cls_bad = _c02.cls_compare([_c02.cls_case(ctx.rng) for _ in range(120 if ctx.quick else 4000)])
+    del _c02.PROP_ITEMS[:]
+    corr += [dict(b, stage="Model/ClassFmt.v vs the class emitter") for b in cls_bad[:3]]
+    agg["classes_compared_with_model"] = n_cls
     for cls, det, ir in items:
         ctx.item(cls, {"stage": "exec() of the emitted source in a scratch namespace", "clause": cls, "input": T.jsonable(ir) if ir else None,
                        "detail": det}, corpus_key=det.get("corpus_key") if isinstance(det, dict) else None)
